@@ -152,6 +152,16 @@ def txn_enter(I, mode, independent=False):
 
 
 def txn_exit(I, exc):
+    t = I.txn_stack[-1]
+    if t['top'] and exc is None:
+        # the session is flushed before the commit; a failing flush aborts
+        hook = I.registry.get('before_commit')
+        if hook is not None:
+            try:
+                hook(I, t)
+            except PyRaise as pr:
+                txn_exit(I, pr.exc)
+                raise
     t = I.txn_stack.pop()
     if t['top']:
         if exc is not None:
